@@ -94,4 +94,29 @@ theorem labels_tbl : ∀ arr : Arr, ∀ f, f < 2 → ∀ e, e < 6 →
 theorem top_lt_six (arr : Arr) (nz e : Nat) (h : e ≤ top arr nz) : e < 6 := by
   unfold top at h; cases arr <;> simp only at h <;> omega
 
+theorem labels_closed_small : ∀ arr : Arr, ∀ f, f < 2 → ∀ e, e < 6 →
+    statsLabelF arr f e = labelClosedF arr f e ∧ trajLabelF arr f e = labelClosedF arr f e := by
+  intro arr; cases arr <;> decide
+
+theorem labels_closed_form (arr : Arr) (f : Nat) (hf : f < 2) (e : Nat) :
+    statsLabelF arr f e = labelClosedF arr f e ∧ trajLabelF arr f e = labelClosedF arr f e := by
+  by_cases he : e < 6
+  · exact labels_closed_small arr f hf e he
+  · have h1 : ∀ c, c ≤ 5 → (e == c) = false := by
+      intro c hc; simp; omega
+    cases arr <;>
+      simp [statsLabelF, trajLabelF, statsAssignments, trajAssignments, labelClosedF, List.foldl, assign,
+        h1 (3 - f) (by omega), h1 (2 - f) (by omega), h1 1 (by omega), h1 0 (by omega), h1 (5 - f) (by omega),
+        h1 2 (by omega), h1 3 (by omega), h1 (4 - f) (by omega)]
+
+theorem extVec_length (arr : Arr) (nx ny nz : Nat) : (extVec arr nx ny nz).length = nTot nx ny nz := by
+  simp [extVec]
+
+theorem extVec_getD (arr : Arr) {nx ny nz i : Nat} (hi : i < nTot nx ny nz) :
+    (extVec arr nx ny nz).getD i 0 = ext arr nx ny nz i := by
+  simp [extVec, List.getD_eq_getElem?_getD, hi]
+
+theorem five_known : ∀ g ∈ ["corner", "edge", "side", "core", "center"], known g = true ∧ (g == "all") = false := by
+  decide
+
 end Snow.Groups
